@@ -139,6 +139,23 @@ def run(chk):
                     l.split(' ')[1], i[:140], m[:140]), {'cmd': l, 'impl': i, 'spec': m}, None, True)
         dec_lines += msg_dec
         chk.coverage['transport_messages'] = len(msg_dec)
+        # software versions of the vendors the library splits (model Ssh/Software.v): vendor alone, vendor and version, a version
+        # containing the separator, a repeated separator, an empty version, another vendor, a prefix of the vendor
+        sw = []
+        for vendor, sep in (('OpenSSH', '_'), ('dropbear', '_'), ('IPSSH', '-')):
+            for _ in range(20 if chk.tier == 'quick' else 400):
+                ver = ''.join(rng.choice('0123456789.p' + sep + 'ab') for _ in range(rng.choice([0, 1, 3, 8, 20])))
+                text = rng.choice([vendor + sep + ver, vendor + sep + ver, vendor, vendor + sep, vendor + sep + sep + ver, vendor[:-1] + sep + ver, 'x' + vendor + sep + ver,
+                                   vendor + ver, vendor.upper() + sep + ver, sep + ver])
+                sw.append('swver %s %s %s' % (vendor.encode().hex(), sep.encode().hex(), text.encode().hex() or '-'))
+        for l, m in zip(sw, common.run_model(sw)):
+            i = impl.impl_line(l)
+            if m != i and nv < 14:
+                nv += 1
+                chk.violation('correspondence Ssh/Software.v vs SshSoftwareVersionParsedBase broke on "%s" (%s): model %s, implementation %s' % (
+                    l[:80], bytes.fromhex(l.split(' ')[3] if l.split(' ')[3] != '-' else '').decode('ascii', 'replace'), m[:60], i[:60]), {'cmd': l, 'model': m, 'impl': i, 'correspondence': 'swver'}, None, False)
+        dec_lines += sw
+        chk.coverage['software_versions'] = len(sw)
         # OpenSSH v01 certificates encoded by the specification (PROTOCOL.certkeys): parsed through the public key variant, the
         # names of the critical options and extensions (unknown ones included) and the principals must come back in order, and
         # composing the parsed certificate must give the encoding again
